@@ -445,6 +445,20 @@ def run_serializers(tier, rnd, st, res):
                 attempt(qr, kind, 'scale', val)
         for val in (-1, 1.5, -0.5, -2, 0.25, 0, 3):
             attempt(qr, kind, 'border', val)
+    # two colour options in one call that compare equal as Python values: a valid one and a malformed one
+    for kind in ('svg', 'png', 'ppm', 'pam', 'xpm', 'eps', 'pdf'):
+        for good, bad_eq in (((0, 0, 0, 2), (0, 0, 0, 2.0)), ((9, 9, 9, 255), (9, 9, 9, 255.0))):
+            buff = io.StringIO() if kind in TEXT_KINDS else io.BytesIO()
+            try:
+                with_alarm(lambda: qrs[0].save(buff, kind=kind, dark=good, light=bad_eq))
+                outcome = 'ok'
+            except Timeout:
+                outcome = 'timeout'
+            except Exception as ex:  # noqa
+                outcome = mro_of(ex)
+            lines.append(f'ser id={len(lines)} kind={kind} opt=light val={tval(bad_eq)} outcome={outcome}')
+            meta.append((f'qr.save(kind={kind!r}, dark={good!r}, light={bad_eq!r})', kind, ('dark', 'light'), bad_eq, outcome))
+            res.nontrivial.add(('ser-pair', kind, repr(good)))
     for how, kind in (('svg_data_uri', 'svg'), ('svg_inline', 'svg'), ('png_data_uri', 'png')):
         for key in ('dark', 'light', 'finder_dark'):
             for val in BAD_COLOURS[:8]:
@@ -472,7 +486,10 @@ def has_alpha(val):
 
 
 def known_ser(kind, opt, val, outcome, verdict):
-    """no serialiser finding is recorded at present (the PAM / alpha channel defect found by this check was repaired: d1119fe)"""
+    """D28: write_svg groups the modules by colour VALUE; a malformed colour that compares equal to a valid colour of another option
+    ((0, 0, 0, 2.0) == (0, 0, 0, 2)) is never looked at and therefore accepted"""
+    if kind in ('svg', 'svgz') and isinstance(opt, tuple) and outcome == 'ok' and 'malformed-colour' in str(verdict):
+        return 'D28'
     return None
 
 
